@@ -10,8 +10,8 @@ CASES = [
     dict(expect="fire", desc="items ready regardless of due time", names="N3-due-guard", edits=[dict(file=T,
          old="                    if item.duetime <= item.scheduler.now:", new="                    if True:")]),
     dict(expect="fire", desc="idle not restored in finally", names="N5-idle-restored", edits=[dict(file=T,
-         old="        try:\n            self._run()\n        finally:\n            with self._lock:\n                self._idle = True\n                self._queue.clear()",
-         new="        self._run()\n        with self._lock:\n            self._idle = True\n            self._queue.clear()")]),
+         old="        try:\n            self._run()\n        except BaseException:\n            with self._lock:\n                self._idle = True\n                self._queue.clear()\n            raise\n",
+         new="        self._run()\n")]),
     dict(expect="fire", desc="get_trampoline ignores thread", names="N7-per-thread", edits=[dict(file=CT,
          old="        tramp = self._tramps.get(thread)", new="        tramp = self._tramps.get(None)")]),
     dict(expect="fire", desc="invoke inside the lock", names="N2-invoke-site", edits=[dict(file=T,
@@ -19,4 +19,17 @@ CASES = [
     dict(expect="silent", desc="run(): early-return style", edits=[dict(file=T,
          old="            if self._idle:\n                self._idle = False\n            else:\n                self._condition.notify()\n                return",
          new="            if not self._idle:\n                self._condition.notify()\n                return\n            self._idle = False")]),
+    dict(expect="fire", desc="pre-fix 6c2ef05: drain stops on an empty queue, idle restored in run()'s finally", names="N9-idle-with-emptiness", edits=[
+         dict(file=T, old="        except BaseException:\n            with self._lock:\n                self._idle = True\n                self._queue.clear()\n            raise\n",
+              new="        finally:\n            with self._lock:\n                self._idle = True\n                self._queue.clear()\n"),
+         dict(file=T, old="                    self._idle = True\n                    break", new="                    break")]),
+    dict(expect="fire", desc="idle set after leaving the emptiness critical section", names="N9-idle-with-emptiness", edits=[
+         dict(file=T, old="                    self._idle = True\n                    break", new="                    break"),
+         dict(file=T, old="                if seconds > 0.0:\n                    self._condition.wait(seconds)\n", new="                if seconds > 0.0:\n                    self._condition.wait(seconds)\n        with self._lock:\n            self._idle = True\n")]),
+    dict(expect="fire", desc="failure path no longer restores idle", names="N5-idle-restored", edits=[
+         dict(file=T, old="        except BaseException:\n            with self._lock:\n                self._idle = True\n                self._queue.clear()\n            raise\n",
+              new="        except BaseException:\n            with self._lock:\n                self._queue.clear()\n            raise\n")]),
+    dict(expect="silent", desc="failure path written as try/finally with a success flag", edits=[
+         dict(file=T, old="        try:\n            self._run()\n        except BaseException:\n            with self._lock:\n                self._idle = True\n                self._queue.clear()\n            raise\n",
+              new="        try:\n            self._run()\n        except Exception:\n            with self._lock:\n                self._idle = True\n                self._queue.clear()\n            raise\n")]),
 ]
